@@ -94,7 +94,18 @@ def rule_process_data(ctx, f):
         if x.k == "DeclRefExpr" and x.get("dk") == "local" and x.get("d") != bind:
             incd = x.get("d")
     evwhile = [a for a in st.ancestors() if a.k == "WhileStmt"]
-    budd = decl_of(evwhile[0].c[0]) if evwhile else None
+    budd = None
+    if evwhile:
+        # the event budget is the local tested for truth by the loop condition (alone, or as a conjunct next to the frame-end test)
+        stack, conj = [evwhile[0].c[0].strip()], []
+        while stack:
+            x = stack.pop()
+            if x.k == "BinaryOperator" and x.op == "&&":
+                stack += [x.c[0].strip(), x.c[1].strip()]
+            else:
+                conj.append(x)
+        cands = [decl_of(x) for x in conj if x.k == "DeclRefExpr" and x.get("dk") == "local"]
+        budd = cands[0] if len(cands) == 1 else None
     recs = [c for c in f.calls() if (c.callee or "").endswith("::get_next_record") and evwhile and any(a is evwhile[0] for a in c.ancestors())]
     recd = decl_of(recs[0].call_args()[0]) if recs else None
     if incd is not None:
@@ -211,11 +222,22 @@ def rule_process_data(ctx, f):
         clock = [m for m in (g[0].c[1].walk() if g else []) if m.k == "BinaryOperator" and m.op == "=" and key(m.c[0]) == "this.current_time" and K(m.c[1].strip()) == "this.frame_defs.get_start_time(this.current_frame_num)"]
         savekey = [m for m in f.walk() if m.k in ("BinaryOperator", "CXXOperatorCallExpr") and m.op == "=" and any(x is sav[0] for x in m.walk())]
         saved_to = K(savekey[0].c[0]) if savekey else "?"
-        ok = first_pass_neg and same_if and arg.endswith("[this.current_frame_num]") and saved_to == arg and bool(clock)
+        # ... or (since the frame end is tested on entry, F91) the clock the first pass had when it saved the position: the rewind branch
+        # restores current_time from E and the first-pass branch stores current_time in the same E after its skip-ahead
+        restored = [m for m in (g[0].c[1].walk() if g else []) if m.k == "BinaryOperator" and m.op == "=" and key(m.c[0]) == "this.current_time"]
+        kept = [m for m in (g[0].c[2].walk() if g and len(g[0].c) == 3 else []) if m.k in ("BinaryOperator", "CXXOperatorCallExpr") and m.op == "=" and key(m.c[-1].strip()) == "this.current_time"]
+        saved_clock = bool(restored) and bool(kept) and all(any(K(r.c[1].strip()) == K((k_.c[0] if k_.k == "BinaryOperator" else k_.c[-2]).strip()) for k_ in kept) for r in restored) and all(K(r.c[1].strip()).endswith("[this.current_frame_num]") for r in restored)
+        entry_tested = any(re.search(r"this\.current_time", K(x)) for x in [evwhile[0].c[0]]) if evwhile else False
+        if restored and not clock and not saved_clock:
+            ctx.unrec(f.qn, "C14.b: the clock set after the rewind (%s) is neither the frame start nor the clock kept at the save" % K(restored[0].c[1].strip()))
+        if entry_tested and clock and not saved_clock:
+            # with the frame end tested on entry the nominal start is not good enough: the first pass may find the frame already over
+            clock = []
+        ok = first_pass_neg and same_if and arg.endswith("[this.current_frame_num]") and saved_to == arg and (bool(clock) or saved_clock)
         # the event loop comes after both
         ok = ok and all(cfg.must_pass_from_entry([e], lambda x: x.i in (rew[0].i, sav[0].i)) is None for e in evloop if any(evwhile and a is evwhile[0] for a in e.ancestors()))
-        det = "later batches: set_get_position(%s) and current_time = start_time; first batch saves to %s" % (arg, saved_to)
-    ctx.ob("C14.b-same-events-every-pass", f.qn, "rewind", ok, f.where(), det if ok else "passes over one frame do not all start from the saved frame start: " + det)
+        det = "later batches: set_get_position(%s) and current_time = %s; first batch saves to %s" % (arg, "the clock kept at the save" if saved_clock else "start_time", saved_to)
+    ctx.ob("C14.b-same-events-every-pass", f.qn, "rewind", ok, f.where(), det if ok else "passes over one frame do not all start from the saved frame start with the clock of the first pass: " + det)
     # every pass enters the event loop in the stream state the saved position stands for: no record is consumed between the save
     # (first pass) or the rewind (later passes) and the event loop - a skip-ahead after the save would not be repeated after the
     # rewind (the rewind sets the clock to the frame start), so later passes would re-read the events before the frame
@@ -693,6 +715,152 @@ def rule_o_event_cutoff_counts_all_batches(ctx, f):
     return n
 
 
+def _in_graph(cfg, x):
+    while x is not None and x.i not in cfg.pos:
+        x = x.parent
+    return x
+
+
+def rule_p_frame_end_tested_before_every_event(ctx, f):
+    """`for every event inside a requested time frame exactly one count ... and nothing else`: between any update of the clock
+    (time record read in the event loop, skip-ahead on entering a frame, rewind for the next batch) and the histogramming of an event
+    the clock is compared with the end of the frame.  Testing only when the NEXT time record arrives lets a frame that is already over
+    when it is entered (frame shorter than the spacing of the time records) collect every event up to that record (F91)."""
+    RULE = "C14.p-frame-end-tested-before-every-event"
+    cfg = CFG(f)
+    ev = [c for c in f.calls() if (c.callee or "").endswith("::get_bin_from_event") and c.i in cfg.pos]
+    writes = [m for m in f.walk() if m.k in ("BinaryOperator", "CXXOperatorCallExpr") and m.op == "=" and key(m.c[0].strip()) == "this.current_time"]
+    if not ev or not writes:
+        ctx.fail_broken("C14.p: get_bin_from_event call / writes of current_time not found in process_data")
+        return
+    # the tests: comparisons of the clock with the end of the frame, and the frame-mode flag they are and-ed with
+    endk = set()
+    defs = LocalDefs(f)
+    for d, vd in defs.decl.items():
+        ini = defs.single_def(d)
+        if ini is not None and re.search(r"get_end_time\(", key(ini, True)):
+            endk.add("v%d" % d)
+    tests = set()
+    ntests = 0
+    for m in f.walk():
+        if m.k == "BinaryOperator" and m.op in (">=", ">", "<", "<=") and {key(m.c[0].strip()), key(m.c[1].strip())} & {"this.current_time"} and ({key(m.c[0].strip()), key(m.c[1].strip())} & endk or any("get_end_time" in key(x, True) for x in m.c)):
+            ntests += 1
+            tests.add(m.i)
+            top = m
+            while top.parent is not None and top.parent.k in ("BinaryOperator", "UnaryOperator", "ParenExpr", "ImplicitCastExpr") and (top.parent.k != "BinaryOperator" or top.parent.op in ("&&", "||")):
+                top = top.parent
+            for x in top.walk():
+                if x.k == "DeclRefExpr" or x.k == "MemberExpr":
+                    tests.add(x.i)
+                    if x.parent is not None and x.parent.k == "ImplicitCastExpr":
+                        tests.add(x.parent.i)
+    if not ntests:
+        ctx.ob(RULE, f.qn, "clock-compared-with-frame-end", False, f.where(), "the clock is never compared with the end of the frame")
+        return
+    evids = {c.i for c in ev}
+    # inside the event loop the clock follows EVERY time record: the update is under `record.is_time()` only - a further condition on the
+    # frame (F92: `&& end_time > 0.01`, meant for the frame (0,0)) makes a genuine short frame swallow the whole stream
+    loops = [a for a in ev[0].ancestors() if a.k == "WhileStmt"]
+    for w in writes:
+        if not loops or not any(a is loops[0] for a in w.ancestors()):
+            continue
+        conds = []
+        for a in w.ancestors():
+            if a is loops[0]:
+                break
+            if a.k == "IfStmt":
+                conds.append(a.c[0])
+        foreign = sorted({key(x, True) for c in conds for x in c.walk() if x.k in ("DeclRefExpr", "MemberExpr") and x.get("dk") != "function" and not x.is_call() and not re.search(r"rec|is_time|time\(\)", key(x, True)) and not (x.parent is not None and x.parent.is_call() and x.parent.c and x.parent.c[0] is x)})
+        foreign = [x for x in foreign if x and "is_time" not in x]
+        ctx.ob(RULE, f.qn, "clock-follows-every-time-record", not foreign, w.where(), "in the event loop the clock is updated for every time record" if not foreign else "the clock is only updated from a time record when a condition on %s holds: for the other frames time records are ignored, the frame never ends and takes every event of the stream" % foreign)
+    for k_, w in enumerate(sorted(writes, key=lambda m: m.line)):
+        g = _in_graph(cfg, w)
+        if g is None:
+            ctx.unrec(f.qn, "C14.p: clock update at %s not found in the flow graph" % w.where())
+            continue
+        wit = cfg.paths_avoiding([cfg.pos[g.i]], lambda x: x.i in tests, target_pred=lambda x: x.i in evids, to_exit=False)
+        ok = wit is None
+        ctx.ob(RULE, f.qn, "clock-update@%d" % k_, ok, w.where(), "every path from this update of the clock to the histogramming of an event tests the clock against the end of the frame" if ok else "after this update of the clock an event can be histogrammed without the clock having been compared with the end of the frame (blocks %s): a frame that is already over when it is entered collects all events up to the next time record - events outside the frame, and the frames of a partition do not add up to the whole" % wit)
+
+
+def rule_q_batch_sizes_validated(ctx, fns, pd):
+    """`the result does not depend on how many segments or TOF bins are held in memory at once`: the batch loops step by these settings,
+    so set_up() refuses values that are not positive (0: the loop never advances; F93)."""
+    RULE = "C14.q-batch-size-validated"
+    steps = []
+    for m in pd.walk():
+        if m.k == "ForStmt" and len(m.c) >= 3:
+            inc = m.c[-2].strip() if len(m.c) == 4 else None
+            for x in ([inc] if inc is not None else []):
+                if x.k == "CompoundAssignOperator" and x.op == "+=" and key(x.c[1].strip()).startswith("this."):
+                    steps.append((key(x.c[1].strip()), x))
+    su = [f for f in fns if f.short == "set_up" and f.body is not None]
+    if not steps or not su:
+        ctx.fail_broken("C14.q: batch loops stepping by a member / LmToProjData::set_up not found")
+        return
+    for member, x in steps:
+        ok = False
+        for m in su[0].walk():
+            if m.k != "IfStmt":
+                continue
+            c = m.c[0].strip()
+            hits = [b for b in c.walk() if b.k == "BinaryOperator" and b.op in ("<=", "<", "==") and key(b.c[0].strip()) == member and key(b.c[1].strip()) in ("0", "1")]
+            hits = [b for b in hits if not (b.op == "<" and key(b.c[1].strip()) == "0")]
+            if hits and any(y.is_call() and (y.callee or "").split("::")[-1] == "error" for y in m.c[1].walk()):
+                ok = True
+        ctx.ob(RULE, pd.qn, "step:" + member.split(".")[-1], ok, x.where(), "set_up() refuses %s <= 0" % member.split(".")[-1] if ok else "the loop steps by %s, and set_up() accepts 0 for it (no test of the setting leads to error()): process_data() never advances" % member.split(".")[-1])
+
+
+def rule_r_frame_definitions_equality(ctx, fns):
+    """equality of time frame definitions (used on the time-frame metadata of the per-frame outputs) compares the number of frames (F94)"""
+    RULE = "C14.r-frame-definitions-compared-whole"
+    eq = [f for f in fns if f.short == "operator==" and "TimeFrameDefinitions" in f.qn and f.body is not None]
+    if not eq:
+        ctx.fail_broken("anchor TimeFrameDefinitions::operator== not found")
+        return
+    f = eq[0]
+    par = "v%d" % f.params[0]["d"]
+    sized = re.compile(r"(size\(\)|get_num_frames\(\)|get_num_time_frames\(\))")
+    ok = False
+    for m in f.walk():
+        if m.k == "BinaryOperator" and m.op in ("!=", "==", "<", ">"):
+            a, b = key(m.c[0].strip(), True), key(m.c[1].strip(), True)
+            if sized.search(a) and sized.search(b) and ((par in key(m.c[0].strip()) or "t." in a) != (par in key(m.c[1].strip()) or "t." in b)):
+                ok = True
+    elementwise = any(x.is_call() and (x.callee or "").split("::")[-1] in ("at", "operator[]") for x in f.walk())
+    if not ok and not elementwise:
+        ctx.unrec(f.qn, "C14.r: how the frames are compared was not recognised")
+        return
+    ctx.ob(RULE, f.qn, "number-of-frames-compared", ok, f.where(), "the numbers of frames are compared before the frames" if ok else "frames are compared one by one over the length of *this only: definitions with more frames compare equal, and with fewer frames at() throws")
+
+
+def rule_s_seconds_setter_inverts_getter(ctx, fns):
+    """ListTime::set_time_in_secs is the inverse of get_time_in_secs (F95: it divided by 1000 as the getter does)"""
+    RULE = "C14.s-seconds-setter-inverts-getter"
+
+    def factor(f):
+        for m in f.walk():
+            if m.k == "BinaryOperator" and m.op in ("*", "/"):
+                lit = [x.strip() for x in m.c if x.strip().k in ("FloatingLiteral", "IntegerLiteral")]
+                if len(lit) == 1 and lit[0] is m.c[1].strip():
+                    v = float(lit[0].get("v", 0) or 0)
+                    if v:
+                        return v if m.op == "*" else 1.0 / v
+        return None
+
+    g = [f for f in fns if f.short == "get_time_in_secs" and "ListTime" in f.qn and f.body is not None]
+    st = [f for f in fns if f.short == "set_time_in_secs" and "ListTime" in f.qn and f.body is not None]
+    if not g or not st:
+        ctx.fail_broken("anchors ListTime::get_time_in_secs / set_time_in_secs not found")
+        return
+    fg, fs_ = factor(g[0]), factor(st[0])
+    if fg is None or fs_ is None:
+        ctx.unrec(st[0].qn, "C14.s: the unit conversion in ListTime::get/set_time_in_secs was not recognised")
+        return
+    ok = abs(fg * fs_ - 1) < 1e-9
+    ctx.ob(RULE, st[0].qn, "setter-inverts-getter", ok, st[0].where(), "seconds -> milliseconds by the reciprocal of the getter's factor" if ok else "get_time_in_secs() scales milliseconds by %g and set_time_in_secs() scales seconds by %g: not inverse (set_time_in_secs(2.5) stores %g ms)" % (fg, fs_, 2.5 * fs_))
+
+
 def _subscript_chain(n):
     idx = []
     n = n.strip()
@@ -759,6 +927,18 @@ def run(ctx):
         ctx.require_count("C14.j-batches-continue-with-the-clock", 1)
     rule_k_cache_follows_the_model(ctx, us[3].functions + us[4].functions)
     rule_m_setup_follows_settings(ctx, us[5].functions)
+    rule_p_frame_end_tested_before_every_event(ctx, pd[0])
+    ctx.require_count("C14.p-frame-end-tested-before-every-event", 5)
+    rule_q_batch_sizes_validated(ctx, us[5].functions, pd[0])
+    ctx.require_count("C14.q-batch-size-validated", 2)
+    tu = ctx.ex.get(Request("src/buildblock/TimeFrameDefinitions.cxx", fn=["stir::TimeFrameDefinitions::operator=="]))
+    if tu is not None:
+        rule_r_frame_definitions_equality(ctx, tu.functions)
+        ctx.require_count("C14.r-frame-definitions-compared-whole", 1)
+    lu = ctx.ex.get(Request(LM, fn=["stir::ListTime::.*"], files=["/repo/src/include/stir/listmode/ListTime\\.h"]))
+    if lu is not None:
+        rule_s_seconds_setter_inverts_getter(ctx, lu.functions)
+        ctx.require_count("C14.s-seconds-setter-inverts-getter", 1)
     nu = ctx.ex.get(Request(LL, fn=["stir::LM_gradient_and_value"], files=["/repo/src/recon_buildblock/PoissonLogLikelihoodWithLinearModelForMeanAndListModeDataWithProjMatrixByBin\\.cxx"]))
     if nu is not None:
         rule_n_lm_quotient_bounded(ctx, nu.functions)
